@@ -122,3 +122,123 @@ def renamed_overlay(root: str, mode: str = "both") -> dict:
         if new != src:
             out[rel] = new
     return out
+
+
+# ----------------------------------------------------------------------------------------------------------------------
+# further behaviour-preserving rewrites, applied to the syntax tree (the overlay is the unparsed tree)
+
+class _InvertIf(ast.NodeTransformer):
+    """if c: A else: B   ->   if not c: B else: A     (only where both branches exist)"""
+    def visit_If(self, node):
+        self.generic_visit(node)
+        if node.orelse and not (len(node.orelse) == 1 and isinstance(node.orelse[0], ast.If)) and not any(isinstance(x, ast.NamedExpr) for x in ast.walk(node.test)):
+            return ast.copy_location(ast.If(ast.UnaryOp(ast.Not(), node.test), node.orelse, node.body), node)
+        return node
+
+
+class _TempReturn(ast.NodeTransformer):
+    """return expr   ->   result_q = expr; return result_q"""
+    def visit_FunctionDef(self, node):
+        self.generic_visit(node)
+        if any(isinstance(x, (ast.Yield, ast.YieldFrom)) for x in ast.walk(node)):
+            return node
+
+        def rewrite(stmts):
+            out = []
+            for st in stmts:
+                for fld in ("body", "orelse", "finalbody"):
+                    sub = getattr(st, fld, None)
+                    if isinstance(sub, list) and sub and isinstance(sub[0], ast.stmt) and not isinstance(st, (ast.FunctionDef, ast.ClassDef)):
+                        setattr(st, fld, rewrite(sub))
+                for h in getattr(st, "handlers", []) or []:
+                    h.body = rewrite(h.body)
+                if isinstance(st, ast.Return) and st.value is not None and not isinstance(st.value, (ast.Name, ast.Constant)):
+                    out.append(ast.copy_location(ast.Assign([ast.Name("result_q", ast.Store())], st.value), st))
+                    out.append(ast.copy_location(ast.Return(ast.Name("result_q", ast.Load())), st))
+                else:
+                    out.append(st)
+            return out
+        node.body = rewrite(node.body)
+        return node
+
+
+class _ConstExtract(ast.NodeTransformer):
+    """string literals used in function bodies (not docstrings, not parts of f-strings) become module-level constants"""
+    def __init__(self):
+        self.table = {}
+        self.in_fn = 0
+        self.skip = set()
+
+    def visit_FunctionDef(self, node):
+        if node.body and isinstance(node.body[0], ast.Expr) and isinstance(node.body[0].value, ast.Constant):
+            self.skip.add(id(node.body[0].value))
+        for d in node.args.defaults + node.args.kw_defaults:
+            for x in ast.walk(d) if d is not None else []:
+                self.skip.add(id(x))
+        for a in ast.walk(node.args):
+            if isinstance(a, ast.arg) and a.annotation is not None:
+                for x in ast.walk(a.annotation):
+                    self.skip.add(id(x))
+        if node.returns is not None:
+            for x in ast.walk(node.returns):
+                self.skip.add(id(x))
+        self.in_fn += 1
+        self.generic_visit(node)
+        self.in_fn -= 1
+        return node
+
+    def visit_JoinedStr(self, node):
+        for v in node.values:
+            if isinstance(v, ast.FormattedValue):
+                self.visit(v.value)
+        return node
+
+    def visit_Match(self, node):
+        return node
+
+    def visit_AnnAssign(self, node):
+        if node.value is not None:
+            node.value = self.visit(node.value)
+        return node
+
+    def visit_Constant(self, node):
+        if self.in_fn and isinstance(node.value, str) and len(node.value) >= 2 and id(node) not in self.skip:
+            name = self.table.setdefault(node.value, f"_K_Q{len(self.table)}")
+            return ast.copy_location(ast.Name(name, ast.Load()), node)
+        return node
+
+
+def rewritten_overlay(root: str, how: str) -> dict:
+    """how in 'invert-if', 'temp-return', 'const-extract', 'reorder-defs'"""
+    out = {}
+    for rel in _py_files(root):
+        src = open(os.path.join(root, rel)).read()
+        tree = ast.parse(src)
+        if how == "invert-if":
+            tree = _InvertIf().visit(tree)
+        elif how == "temp-return":
+            tree = _TempReturn().visit(tree)
+        elif how == "const-extract":
+            tr = _ConstExtract()
+            tree = tr.visit(tree)
+            if tr.table:
+                # constants go after the imports (and after the docstring / __future__ lines)
+                k = 0
+                for i, st in enumerate(tree.body):
+                    if isinstance(st, (ast.Import, ast.ImportFrom)) or (i == 0 and isinstance(st, ast.Expr) and isinstance(st.value, ast.Constant)):
+                        k = i + 1
+                defs = [ast.Assign([ast.Name(n, ast.Store())], ast.Constant(v)) for v, n in tr.table.items()]
+                tree.body[k:k] = defs
+        elif how == "reorder-defs":
+            used_at_top = {n.id for st in tree.body if not isinstance(st, (ast.FunctionDef, ast.ClassDef)) for n in ast.walk(st) if isinstance(n, ast.Name)}
+            movable = [st for st in tree.body if isinstance(st, ast.FunctionDef) and st.name not in used_at_top and not st.decorator_list]
+            if len(movable) > 1:
+                rest = [st for st in tree.body if st not in movable]
+                tree.body = rest + list(reversed(movable))
+        else:
+            raise ValueError(how)
+        ast.fix_missing_locations(tree)
+        new = ast.unparse(tree) + "\n"
+        if ast.dump(ast.parse(new)) != ast.dump(ast.parse(src)):
+            out[rel] = new
+    return out
